@@ -29,6 +29,9 @@ def load_known():
 
 def clause_of(check, h):
     d = check.desc
+    if d.startswith("never:"):
+        d = d[6:].strip()
+        return "never:" + d.split("(")[0].strip()[:60]
     if d.startswith("unwinding assertion"):
         return "termination" if h.unwind_is_violation else "unwind"
     if ":" in d:
@@ -93,7 +96,7 @@ def _run(prop, tier, seed, only, known, stage, t0):
     for h in hs:
         by_file.setdefault(h.file, []).append(h)
     for f, anchor in prop.anchors.items():
-        insts = [h.inst for h in by_file.get(f, []) if h.inst]
+        insts = list(dict.fromkeys(h.inst for h in by_file.get(f, []) if h.inst))
         full_mod = stage.inject(anchor, f, insts)
         for h in by_file.get(f, []):
             h.full = full_mod + "::" + h.name
@@ -119,7 +122,7 @@ def _run(prop, tier, seed, only, known, stage, t0):
         mem = h.mem_gb if tier == "quick" else max(h.mem_gb, 12)
         budget.acquire(mem)
         try:
-            r = kani.run_harness(stage, h.full, h.profile, tmo, mem, solver=solver)
+            r = kani.run_harness(stage, h.full, h.profile, tmo, mem, solver=solver, should_panic=h.should_panic)
         finally:
             budget.release(mem)
         log("  %-44s %-1s %-7s %-12s %6.1fs  checks=%d failed=%d %s" % (
@@ -246,8 +249,8 @@ def _write_evidence(prop, tier, seed, results, discharged, total_checks, violati
         funcs.update(r.functions)
         if r.verification_time:
             solver_time += r.verification_time
-        if r.verdict == "success" and r.covers_sat:
-            nontrivial.add(h.name)
+        if r.verdict == "success" and (r.covers_sat or getattr(r, "expected_panics", None)):
+            nontrivial.add(h.name + "/" + h.profile)
         per.append({
             "harness": h.name, "obligation": h.obligation, "profile": h.profile,
             "solver": r.solver, "verdict": r.verdict, "reason": r.reason, "shape": h.shape,
@@ -304,7 +307,8 @@ def _write_evidence(prop, tier, seed, results, discharged, total_checks, violati
     }
     del ev["coverage"]["states"]
     os.makedirs(EVID_DIR, exist_ok=True)
-    with open(os.path.join(EVID_DIR, prop.id + ".json"), "w") as f:
+    partial = ".partial" if os.environ.get("VERIF_ONLY") else ""
+    with open(os.path.join(EVID_DIR, prop.id + partial + ".json"), "w") as f:
         json.dump(ev, f, indent=1)
 
 
